@@ -274,6 +274,7 @@ def run_cbo(case):
 
     dims = case["dims"]
     count = [0]
+    target = [None]
     fail = case.get("fail", ["none"])
 
     def objective(params):
@@ -288,13 +289,20 @@ def run_cbo(case):
         if fail[0] == "window" and fail[1] < k <= fail[2]:
             return k, iv, "F_fail"
         y = float(sum(w * v for w, v in zip(case["weights"], iv)))
+        if case.get("slow") and k == case["slow"][0]:
+            target[0] = iv  # this job stays running for a long time; it is the best configuration
+        if target[0] is not None:
+            y = -float(sum((a - b) ** 2 for a, b in zip(iv, target[0])))  # the optimum is a configuration whose result is not told yet
         if case.get("moo"):
             return k, iv, (y, float(-sum(iv)))
         return k, iv, y
 
     async def run(job):
         k, iv, y = objective(job.parameters)
-        for _ in range((sum(iv) + k) % (case.get("yields", 0) + 1)):
+        n_yields = (sum(iv) + k) % (case.get("yields", 0) + 1)
+        if case.get("slow") and k == case["slow"][0]:
+            n_yields = case["slow"][1]  # uneven durations: this job is still running while many others are asked and told
+        for _ in range(n_yields):
             await asyncio.sleep(0)
         return y
 
@@ -348,7 +356,7 @@ def run_cbo(case):
                         search.fit_surrogate(df0)
                     # several search() calls on the same object (budgets accumulate); strict: MaximumJobsSpawnReached may end a call
                     # in the middle of submitting an asked batch
-                    for n_call, strict in case.get("calls") or [[case["evals"], False]]:
+                    for n_call, strict in case["calls"] if "calls" in case and case["calls"] is not None else [[case["evals"], False]]:
                         df = search.search(max_evals=n_call, max_evals_strict=bool(strict))
                     if mode == "asktell":
                         # the public ask / tell interface driven by the caller, in any order (asks without tell, partial tells);
@@ -358,6 +366,14 @@ def run_cbo(case):
                             if op[0] == "ask":
                                 got = search.ask(op[1])
                                 pending.extend((dict(g), g) for g in got)
+                            elif op[0] == "hold":
+                                # the last asked configurations are slow jobs: their results are not told (for now); the objective
+                                # is the best at the first of them
+                                k = min(op[1], len(pending))
+                                if k:
+                                    held, pending = pending[-k:], pending[:-k]
+                                    if target[0] is None and case.get("peak"):
+                                        target[0] = index_vector(dims, held[0][0])
                             elif op[0] == "tell":
                                 k = min(op[1], len(pending))
                                 batch, pending = pending[:k], pending[k:]
@@ -492,7 +508,7 @@ def check_cbo(case):
                         calls="strict" if any(st for _, st in case.get("calls") or []) else ("multi" if case.get("calls") else "one")),
                desc=["sur=" + case["sur"], "strat=" + case["strat"], "nw=%d" % case["nw"], "N=%s" % N, "ff=" + case.get("ff", "min"),
                      "dims=" + "+".join(sorted(set(d[0] for d in case["dims"]))),
-                     "calls=%d" % len(case.get("calls") or [0]), "mode=" + case.get("mode", "search"), "acq=" + case.get("acq", "UCBd"), "acq_opt=" + case.get("acq_opt", "auto"),
+                     "calls=%d" % len(case.get("calls") or [0]), "mode=" + case.get("mode", "search"), "pending_optimum" if case.get("peak") or case.get("slow") else "plain_objective", "acq=" + case.get("acq", "UCBd"), "acq_opt=" + case.get("acq_opt", "auto"),
                      "cond" if case.get("conds") else "product", "moo" if case.get("moo") else "single_objective", "strict" if any(st for _, st in case.get("calls") or []) else "not_strict", "fail=" + case.get("fail", ["none"])[0], "gather=" + case.get("gather", "BATCH")])
     rec, cfg, rows, error, n0 = run_cbo(case)
     if error is not None:
@@ -645,11 +661,38 @@ def gen_cbo(count, surrogates, big=False, cont=False):
     return g
 
 
+def gen_gp_pending(count):
+    """GP surrogate (acq_optimizer lbfgs on every fit) on small integer spaces with configurations that are asked but not told for a
+    long time, the objective being the best exactly there: the acquisition optimizer is attracted by a pending configuration."""
+    def g(rng, tier):
+        for i in range(count * (2 if tier == "search" else 1)):
+            dims = [["int", 0, rng.choice([5, 7, 9])]] + ([["int", 0, rng.choice([2, 3])]] if rng.random() < 0.7 else [])
+            N = space_size(dims)
+            ninit = rng.randint(3, 6)
+            c = dict(dims=dims, sur="GP", strat=rng.choice(["cl_max", "cl_min", "qUCB"]), nw=1, seed=rng.randrange(10 ** 6), ninit=ninit,
+                     evals=min(N, ninit + rng.randint(8, 13)), npts=40 * N, ff="min", fail=["none"], acq="UCB", weights=[1 for _ in dims],
+                     yields=0, gather="BATCH", freq=1)
+            if i % 2 == 0:
+                # the public ask / tell interface: a first batch with one or two slow jobs, then one ask / one tell at a time
+                first = ninit + rng.randint(1, 2)
+                ops = [["ask", first], ["hold", rng.randint(1, 2)], ["tell", first]]
+                for _k in range(rng.randint(8, 13)):
+                    ops += [["ask", 1], ["tell", 1]]
+                c.update(mode="asktell", calls=[], ops=ops, peak=True)
+            else:
+                # search() with several workers and one job that runs much longer than the others
+                c.update(nw=rng.randint(2, 4), yields=rng.choice([0, 1, 2]), slow=[rng.randint(1, ninit + 2), 400])
+            yield c
+    return g
+
+
 def shrink_cbo(case):
     if case.get("ops"):
         ops = case["ops"]
         for i in range(len(ops) - 1, -1, -1):
             yield dict(case, ops=ops[:i] + ops[i + 1:])
+    if case.get("slow") and case["slow"][1] > 20:
+        yield dict(case, slow=[case["slow"][0], case["slow"][1] // 2])
     for key in ("moo", "update_prior", "conds", "acq_opt"):
         if case.get(key):
             yield {k: v for k, v in case.items() if k != key}
@@ -704,13 +747,14 @@ def run_opt(case):
     vals = [dim_values(d) if d[0] != "cat" else [str(v) for v in dim_values(d)] for d in dims]
     rec = Recorder()
     inits = [[vals[i][j % len(vals[i])] for i, j in enumerate(p)] for p in case.get("inits", [])]
-    base = None if case["sur"] == "DUMMY" else ExtraTreesRegressor(n_estimators=6, min_samples_split=2, random_state=case["seed"])
+    base = None if case["sur"] == "DUMMY" else "GP" if case["sur"] == "GP" else ExtraTreesRegressor(n_estimators=6, min_samples_split=2, random_state=case["seed"])
     error = None
     with warnings.catch_warnings():
         warnings.simplefilter("ignore")
         opt = Optimizer(mk_dimensions(dims), base_estimator=base, n_initial_points=case["ninit"], initial_points=inits or None,
-                        acq_func="LCB", acq_func_kwargs=dict(kappa=1.96), acq_optimizer="sampling", random_state=case["seed"],
-                        acq_optimizer_kwargs=dict(n_points=case["npts"], filter_failures=case.get("ff", "mean")))
+                        acq_func="LCB", acq_func_kwargs=dict(kappa=1.96), acq_optimizer="auto" if case["sur"] == "GP" else "sampling",
+                        random_state=case["seed"],
+                        acq_optimizer_kwargs=dict(n_points=case["npts"], filter_failures=case.get("ff", "mean"), acq_optimizer_freq=1))
         pending = []
         step = 0
         oneshot_raised = False
@@ -733,11 +777,19 @@ def run_opt(case):
                         k = min(op[1], len(pending))
                         if k == 0:
                             continue
-                        xs, pending = pending[:k], pending[k:]
+                        if case.get("peak") and len(pending) > k:
+                            # asynchronous history: the newest results come back first, the oldest asked point stays pending and the
+                            # objective (minimised) is the best there
+                            xs, pending = pending[-k:], pending[:-k]
+                            tv = [vals[i].index(_norm(v)) for i, v in enumerate(pending[0])]
+                        else:
+                            xs, pending = pending[:k], pending[k:]
+                            tv = None
                         ys = []
                         for j, x in enumerate(xs):
                             iv = [vals[i].index(_norm(v)) for i, v in enumerate(x)]
-                            ys.append("F" if (sum(iv) + j) % op[2] == 0 and op[2] > 1 else float(sum((i + 1) * v for i, v in enumerate(iv))))
+                            y = float(sum((i + 1) * v for i, v in enumerate(iv))) if tv is None else float(sum((a - b) ** 2 for a, b in zip(iv, tv)))
+                            ys.append("F" if (sum(iv) + j) % op[2] == 0 and op[2] > 1 else y)
                         if k == 1 and op[3] and ys[0] != "F":  # a single failure has to be told in list form
                             opt.tell(xs[0], ys[0])
                         else:
@@ -813,6 +865,17 @@ def gen_opt(count):
                 ops.append(["ask", rng.choice([2, 3]), rng.choice(["topk", "boltzmann"])])
             ninit = rng.randint(1, 5)
             inits = [[rng.randrange(8) for _ in dims] for _ in range(rng.choice([0, 0, 0, 1, 3]))]
+            if i % 8 == 5:
+                # GP (lbfgs on every fit) on a small integer space, partial tells (newest first): the oldest asked points stay pending and
+                # the objective is the best there
+                dims = [["int", 0, rng.choice([5, 7, 9])]] + ([["int", 0, rng.choice([2, 3])]] if rng.random() < 0.6 else [])
+                N = space_size(dims)
+                ninit = rng.randint(3, 5)
+                ops = [["ask", ninit + 2, "cl_max"], ["tell", ninit + 1, 1, False]]
+                for _k in range(rng.randint(5, 10)):
+                    ops += [["ask", rng.choice([0, 0, 1, 2]), rng.choice(["cl_max", "qLCB"])], ["tell", rng.choice([1, 1, 2]), 1, rng.random() < 0.5]]
+                yield dict(dims=dims, sur="GP", seed=rng.randrange(10 ** 6), ninit=ninit, npts=40 * N, ops=ops, inits=[], ff="mean", peak=True)
+                continue
             yield dict(dims=dims, sur=rng.choice(["ET", "ET", "ET", "DUMMY"]), seed=rng.randrange(10 ** 6), ninit=ninit, npts=max(100, 30 * N),
                        ops=ops, inits=inits, ff=rng.choice(["mean", "max"]))
     return g
@@ -921,6 +984,7 @@ def streams(tier):
         Stream("cbo_search", gen_cbo(1200 if th else 160, ["ET", "DUMMY", "ET", "RF", "ET", "DUMMY"] if th else ["ET", "ET", "DUMMY"], big=False),
                check_cbo, shrink_cbo, timeout=300),
     ]
+    ss.append(Stream("gp_pending", gen_gp_pending(80 if th else 14), check_cbo, shrink_cbo, timeout=600))
     ss.append(Stream("cbo_continuous", gen_cbo(300 if th else 24, ["ET", "DUMMY", "RF"] if th else ["ET", "ET", "DUMMY"], cont=True), check_cbo, shrink_cbo, timeout=300))
     if th:
         ss.append(Stream("cbo_search_gp", gen_cbo(60, ["GP"]), check_cbo, shrink_cbo, timeout=600))
